@@ -151,6 +151,9 @@ def make_leb_write(case):
 PAIR_TEXTS = ["\U0001F600", "a\U00010000b", "\U0010FFFF\U0001F600", "\uFFFD\U0001D11E"]
 
 
+LONE_UNITS = [[0x41, 0xD800, 0x42], [0xDC00, 0x41], [0x41, 0xDBFF]]
+
+
 def make_wchar_pairs(case):
     """UTF-16 above the BMP (surrogate pairs) in every array form; concrete sample texts, picked by a decision variable."""
     from dissect.cstruct import cstruct
@@ -158,7 +161,27 @@ def make_wchar_pairs(case):
     enc = "utf-16-le" if endian == "<" else "utf-16-be"
 
     def run(ctx):
-        text = PAIR_TEXTS[ctx.choose("sample", len(PAIR_TEXTS))]
+        k = ctx.choose("sample", len(PAIR_TEXTS) + len(LONE_UNITS))
+        if k >= len(PAIR_TEXTS):
+            # ill-formed UTF-16 (an unpaired surrogate): rejected, or - if a value comes back - written back as it was read
+            us = LONE_UNITS[k - len(PAIR_TEXTS)]
+            raw = b"".join(u.to_bytes(2, "little" if endian == "<" else "big") for u in us)
+            cs = cstruct(endian=endian)
+            cs.load(f"struct test {{ wchar x[{len(us)}]; uint8 t; }};", compiled=case["compiled"])
+            try:
+                v = cs.test(raw + b"\x7f")
+            except UnicodeDecodeError:
+                ctx.observe("outcome", "rejected")
+                ctx.check("ill-formed UTF-16 is rejected or preserved", True)
+                return
+            try:
+                out = v.dumps()
+            except Exception as e:  # noqa: BLE001
+                ctx.check("a parsed wide string can be written back", False, H.classify(e))
+                return
+            ctx.check("ill-formed UTF-16 is rejected or preserved", out == raw + b"\x7f", out.hex())
+            return
+        text = PAIR_TEXTS[k]
         raw = text.encode(enc)
         units = len(raw) // 2
         cs = cstruct(endian=endian)
